@@ -40,6 +40,10 @@ type connIDManager struct {
 	queueControlFrame         func(wire.Frame)
 
 	closed bool
+
+	// [UQUIC] advertisedLimit is the active_connection_id_limit a spec-driven client put on the
+	// wire (see SetConnectionIDLimit). Zero for every other connection.
+	advertisedLimit uint64
 }
 
 func newConnIDManager(
@@ -65,7 +69,9 @@ func (h *connIDManager) Add(f *wire.NewConnectionIDFrame) error {
 	if err := h.add(f); err != nil {
 		return err
 	}
-	if len(h.queue) >= protocol.MaxActiveConnectionIDs {
+	// [UQUIC] The peer may issue as many connection IDs as we advertised. A spec-driven client
+	// advertises the spec's active_connection_id_limit, which can exceed MaxActiveConnectionIDs.
+	if uint64(len(h.queue)) >= max(uint64(protocol.MaxActiveConnectionIDs), h.advertisedLimit) {
 		return &qerr.TransportError{ErrorCode: qerr.ConnectionIDLimitError}
 	}
 	return nil
